@@ -1032,8 +1032,9 @@ class CSemantics:
         """Check array indexing"""
         index = self.coerce(index, self.int_type)
 
-        if not base.lvalue:
-            # TODO: must array base be an lvalue?
+        if not base.lvalue and not base.typ.is_pointer:
+            # An array must be an lvalue here, a pointer value not,
+            # for example (p - n)[1].
             self.error("Expected lvalue", location)
 
         if not isinstance(base.typ, types.IndexableType):
